@@ -8,6 +8,7 @@ import (
 	"fmt"
 	"net/netip"
 	"os"
+	"runtime/debug"
 	"runtime/pprof"
 	"strings"
 
@@ -22,9 +23,12 @@ func main() {
 	mode := flag.String("mode", "honest", "honest|line|tamper|fault|alert|topo")
 	topos := flag.String("topos", "T1,T2,T3", "topology families")
 	maxJ := flag.Int("max", 0, "maximum number of journeys per topology (0 = all)")
+	nsFlag := flag.String("ns", "", "line mode: comma separated segment lengths (default: the tier's list)")
 	nrand := flag.Int("random", 0, "number of additional seeded random topologies (honest mode)")
 	prof := flag.String("cpuprofile", "", "write a CPU profile")
 	flag.Parse()
+	// every real data plane holds 2 MB of (mostly empty) pointer tables the collector scans per cycle
+	debug.SetGCPercent(1000)
 	if *prof != "" {
 		f, _ := os.Create(*prof)
 		_ = pprof.StartCPUProfile(f)
@@ -35,6 +39,10 @@ func main() {
 	st := &stats{}
 	if *mode == "conc" {
 		conc(w, st)
+		*topos = ""
+	}
+	if *mode == "line" {
+		line(w, st, *nsFlag)
 		*topos = ""
 	}
 	for _, name := range strings.Split(*topos, ",") {
@@ -50,8 +58,6 @@ func main() {
 			w.Emit(map[string]any{"ev": "topo", "t": t.JSON()})
 		case "honest":
 			honest(w, t, 4, *maxJ, st)
-		case "line":
-			line(w, st)
 		case "tamper":
 			tamper(w, t, *maxJ, st)
 		case "fault":
@@ -159,10 +165,19 @@ func honest(w *vt.Writer, t *dp.Topo, maxLen, maxJ int, st *stats) {
 // line: C22 binding.  Line topologies of n ASes (segments of n hop fields), peering links at every
 // position for n <= 8 and at first/middle/last otherwise; every path the real combinator returns
 // between the ends of the branches and a sample of interior pairs.
-func line(w *vt.Writer, st *stats) {
+func line(w *vt.Writer, st *stats, nsFlag string) {
+	// 63 and 64: the limits of the path header (6-bit segment length, 64 hop fields in total)
 	ns := []int{2, 3, 4, 5, 8, 16, 63}
 	if vt.Thorough() {
-		ns = []int{2, 3, 4, 5, 8, 16, 33, 63}
+		ns = []int{2, 3, 4, 5, 8, 16, 33, 63, 64}
+	}
+	if nsFlag != "" {
+		ns = nil
+		for _, f := range strings.Split(nsFlag, ",") {
+			var n int
+			fmt.Sscanf(f, "%d", &n)
+			ns = append(ns, n)
+		}
 	}
 	for _, n := range ns {
 		var peers []int
@@ -236,9 +251,6 @@ func line(w *vt.Writer, st *stats) {
 			}
 			for k, pi := range pick {
 				p := paths[pi]
-				if len(p.SCIONPath.Raw) == 0 {
-					continue
-				}
 				st.journeys++
 				net.Run(w, pr[0], pr[1], p, dp.JourneyOpts{ID: st.journeys, Mode: "honest",
 					PT: "scion", L4: "udp", Rev: []string{"pather", "raw"}[k%2], Rng: rng})
